@@ -608,6 +608,7 @@ theorem square_complete (hA : ArithOK) {n : Int} (hn : 1 < n) {g h E x r1 : Int}
   refine ⟨?_, rfl⟩
   unfold verifyOfSquare
   dsimp only
+  rw [if_neg (by omega)]
   refine same_secret_complete hA hn hg hh rF hh rF ?_ hpss tq
   rw [grp_sq]; exact hE
 
@@ -822,7 +823,8 @@ theorem rangeT_eq (cs : Suite) (a b : Int) : rangeT cs a b = tolT cs.t cs.l a b 
 /-- **C16 completeness**, whole protocol. -/
 theorem range_complete (hA : ArithOK) (cs : Suite) {n : Int} (hn : 1 < n) {g h x a b : Int}
     {c : Commitment} {u v : (ZMod n.toNat)ˣ} (hg : Rep n g u) (hh : Rep n h v)
-    (hc : Rep n c.value (u ^ x * v ^ c.randomness)) {tp tp' : List Draw} {π : RangeProof}
+    (hc : Rep n c.value (u ^ x * v ^ c.randomness)) (hcr : 0 ≤ c.value ∧ c.value < n)
+    {tp tp' : List Draw} {π : RangeProof}
     (hp : rangeProve cs x c g h n a b tp = .ok (π, tp')) (tq : List Draw) :
     rangeVerify cs π g h n a b tq = .ok (true, tq) ∧ π.E = c.value := by
   unfold rangeProve at hp
@@ -839,6 +841,7 @@ theorem range_complete (hA : ArithOK) (cs : Suite) {n : Int} (hn : 1 < n) {g h x
   unfold rangeVerify
   rw [if_neg hab]
   dsimp only
+  rw [if_neg (by omega)]
   obtain ⟨hpm, -⟩ := pw_ok_iff.mp hE'
   rw [bind_of_ok (pw_apply hpm tq)]
   simp only [beq_self_eq_true, if_true]
@@ -998,8 +1001,19 @@ theorem verifySameSecret_tapeFree (E F g1 h1 g2 h2 n : Int) (π : ProofSs) :
   exact .bind (.pw _ _ _) fun _ => .bind (.pw _ _ _) fun _ => .bind (.pw _ _ _) fun _ =>
     .bind (.pw _ _ _) fun _ => .bind (.pw _ _ _) fun _ => .bind (.pw _ _ _) fun _ => .pure _
 
-theorem verifyOfSquare_tapeFree (π : ProofOfS) (g h n : Int) : TapeFree (verifyOfSquare π g h n) :=
-  verifySameSecret_tapeFree _ _ _ _ _ _ _ _
+theorem verifyOfSquare_tapeFree (π : ProofOfS) (g h n : Int) : TapeFree (verifyOfSquare π g h n) := by
+  unfold verifyOfSquare
+  exact .ite (.pure _) (verifySameSecret_tapeFree _ _ _ _ _ _ _ _)
+
+/-- What an accepted proof of square was checked against (Algorithm 4 read backwards): `F` is the reduced
+representative of its residue, and the same-secret proof for `(F, E)` is accepted. -/
+theorem verifyOfSquare_accept_inv {π : ProofOfS} {g h n : Int} {tq tq' : List Draw}
+    (hv : verifyOfSquare π g h n tq = .ok (true, tq')) :
+    (0 ≤ π.F ∧ π.F < n) ∧ verifySameSecret π.F π.E g h π.F h n π.proofSs tq = .ok (true, tq') := by
+  unfold verifyOfSquare at hv
+  split at hv
+  · cases (pure_ok_iff.mp hv).1
+  next hF => exact ⟨by omega, hv⟩
 
 theorem verifyLarge_tapeFree (π : ProofLi) (E g h n : Int) (t l : Nat) (b : Int) :
     TapeFree (verifyLargeIntervalSpecific π E g h n t l b) := by
@@ -1090,13 +1104,13 @@ theorem verifyOfTolerance_tapeFree (π : ProofWt) (g h E n a b : Int) (t l T : N
 theorem rangeVerify_tapeFree (cs : Suite) (π : RangeProof) (g h n a b : Int) :
     TapeFree (rangeVerify cs π g h n a b) := by
   unfold rangeVerify
-  exact .ite .panic (.bind (.pw _ _ _) fun _ => .ite (verifyOfTolerance_tapeFree _ _ _ _ _ _ _ _ _ _)
-    (.pure _))
+  exact .ite .panic (.ite (.pure _) (.bind (.pw _ _ _) fun _ =>
+    .ite (verifyOfTolerance_tapeFree _ _ _ _ _ _ _ _ _ _) (.pure _)))
 
 /-- What an accepted range proof was checked against (`verify` read backwards). -/
 theorem range_accept_inv (hA : ArithOK) {cs : Suite} {π : RangeProof} {g h n a b : Int} (hn : 0 < n)
     {tq tq' : List Draw} (hv : rangeVerify cs π g h n a b tq = .ok (true, tq')) :
-    a < b ∧ tq' = tq ∧ π.Eprime = π.E ^ (2 ^ rangeT cs a b) % n ∧
+    a < b ∧ tq' = tq ∧ (0 ≤ π.E ∧ π.E < n) ∧ π.Eprime = π.E ^ (2 ^ rangeT cs a b) % n ∧
       verifyOfToleranceSpecific π.tol g h π.Eprime n a b cs.t cs.l (rangeT cs a b) tq
         = .ok (true, tq) := by
   have htq := (rangeVerify_tapeFree cs π g h n a b).tape_eq hv
@@ -1105,6 +1119,9 @@ theorem range_accept_inv (hA : ArithOK) {cs : Suite} {π : RangeProof} {g h n a 
   split at hv
   · cases hv
   next hab =>
+  split at hv
+  · cases (pure_ok_iff.mp hv).1
+  next hEr =>
   dsimp only at hv
   have hpw := hA.powMod_nonneg π.E (2 ^ rangeT cs a b) n hn (by positivity)
   rw [two_pow_toNat] at hpw
@@ -1112,7 +1129,7 @@ theorem range_accept_inv (hA : ArithOK) {cs : Suite} {π : RangeProof} {g h n a 
   split at hv
   · next he =>
     have he' : π.Eprime = π.E ^ 2 ^ rangeT cs a b % n := by simpa using he
-    exact ⟨by omega, rfl, he', hv⟩
+    exact ⟨by omega, rfl, by omega, he', hv⟩
   · cases (pure_ok_iff.mp hv).1
 
 /-- a congruence transports `Rep` -/
@@ -1129,7 +1146,7 @@ theorem zpow_toNat {G} [Group G] (u : G) {x : Int} (hx : 0 ≤ x) : u ^ x = u ^ 
 /-! ### the commitments the library range-proves -/
 
 /-- A single-attribute commitment made by `commit_with_commitment_pk` (the way `proof_gen` makes the
-commitments it range-proves) represents `g_i^m · h^r`. -/
+commitments it range-proves) represents `g_i^m · h^r` and is the reduced representative (`0 ≤ value < N`). -/
 theorem commitWithCpk_single (hA : ArithOK) {cs : Suite} {cpk : CommitmentPK} (hn : 1 < cpk.N)
     {msgs : List Int} {unrevealed : Option (List Nat)} {i : Nat} {m gi : Int}
     {u v : (ZMod cpk.N.toNat)ˣ} (hix : unrevealed.getD (List.range msgs.length) = [i])
@@ -1137,7 +1154,7 @@ theorem commitWithCpk_single (hA : ArithOK) {cs : Suite} {cpk : CommitmentPK} (h
     (hg : Rep cpk.N gi u) (hh : Rep cpk.N cpk.h v) {c : Commitment} {tp tp' : List Draw}
     (h : commitWithCpk cs msgs cpk unrevealed tp = .ok (c, tp')) :
     Rep cpk.N c.value (u ^ m * v ^ c.randomness) ∧ 0 ≤ c.randomness ∧
-      bitLen c.randomness = cs.ln := by
+      bitLen c.randomness = cs.ln ∧ 0 ≤ c.value ∧ c.value < cpk.N := by
   unfold commitWithCpk at h
   rw [hix] at h
   obtain ⟨r, t1, hr, H1⟩ := bind_ok_inv h
@@ -1159,7 +1176,8 @@ theorem commitWithCpk_single (hA : ArithOK) {cs : Suite} {cpk : CommitmentPK} (h
   obtain ⟨-, rx, x0, -⟩ := pw_inv hA hn hg hx
   obtain ⟨-, rh, h0, -⟩ := pw_inv hA hn hh hhr
   rw [one_mul]
-  exact ⟨(tmod_rep hn (rx.mul rh) (mul_nonneg x0 h0)).1, r0, rb⟩
+  obtain ⟨rc, c0, cn⟩ := tmod_rep hn (rx.mul rh) (mul_nonneg x0 h0)
+  exact ⟨rc, r0, rb, c0, cn⟩
 
 /-- The same for `commit_with_pk` (issuance side: bases `a_i`, `b`). -/
 theorem commitWithPk_single (hA : ArithOK) {cs : Suite} {pk : PublicKey} (hn : 1 < pk.N)
@@ -1169,7 +1187,7 @@ theorem commitWithPk_single (hA : ArithOK) {cs : Suite} {pk : PublicKey} (hn : 1
     (hg : Rep pk.N ai u) (hh : Rep pk.N pk.b v) {c : Commitment} {tp tp' : List Draw}
     (h : commitWithPk cs msgs pk bases unrevealed tp = .ok (c, tp')) :
     Rep pk.N c.value (u ^ m * v ^ c.randomness) ∧ 0 ≤ c.randomness ∧
-      bitLen c.randomness = cs.ln := by
+      bitLen c.randomness = cs.ln ∧ 0 ≤ c.value ∧ c.value < pk.N := by
   unfold commitWithPk at h
   rw [hix] at h
   obtain ⟨r, t1, hr, H1⟩ := bind_ok_inv h
@@ -1191,7 +1209,8 @@ theorem commitWithPk_single (hA : ArithOK) {cs : Suite} {pk : PublicKey} (hn : 1
   obtain ⟨-, rx, x0, -⟩ := pw_inv hA hn hg hx
   obtain ⟨-, rh, h0, -⟩ := pw_inv hA hn hh hhr
   rw [one_mul]
-  exact ⟨(tmod_rep hn (rx.mul rh) (mul_nonneg x0 h0)).1, r0, rb⟩
+  obtain ⟨rc, c0, cn⟩ := tmod_rep hn (rx.mul rh) (mul_nonneg x0 h0)
+  exact ⟨rc, r0, rb, c0, cn⟩
 
 /-! ### the honest prover inside `[a, b]` never panics -/
 
@@ -1439,5 +1458,96 @@ theorem same_secret_binding (hA : ArithOK) {n : Int} (hn : 1 < n)
     subst_vars; rfl
   · exact Or.inr (Or.inr (Or.inr (Or.inl hev)))
   · exact Or.inr (Or.inr (Or.inr (Or.inr hev)))
+
+/-- translating by a non-zero multiple of `N` leaves the interval `[0, N)`: at most one representative of a
+residue class is reduced. -/
+theorem shift_not_reduced {x N k : Int} (hk : k ≠ 0) (h0 : 0 ≤ x) (hx : x < N) :
+    x + k * N < 0 ∨ N ≤ x + k * N := by
+  have hN : 0 < N := by omega
+  rcases Int.lt_or_lt_of_ne hk with hneg | hpos
+  · left
+    have : k * N ≤ -1 * N := Int.mul_le_mul_of_nonneg_right (by omega) (by omega)
+    omega
+  · right
+    have : 1 * N ≤ k * N := Int.mul_le_mul_of_nonneg_right (by omega) (by omega)
+    omega
+
+
+/-! ### honest commitments are reduced representatives -/
+
+theorem tmod_reduced {a n : Int} (h0 : 0 ≤ a) (hn : 0 < n) : 0 ≤ tmod a n ∧ tmod a n < n := by
+  have : tmod a n = a % n := Int.tmod_eq_emod_of_nonneg h0
+  rw [this]
+  exact ⟨Int.emod_nonneg _ (by omega), Int.emod_lt_of_pos _ hn⟩
+
+/-- whatever `pow_mod` returns lies in `[0, n)`. -/
+theorem pw_range (hA : ArithOK) {b e n x : Int} (hn : 0 < n) {t t' : List Draw}
+    (h : pw b e n t = .ok (x, t')) : 0 ≤ x ∧ x < n := by
+  obtain ⟨hp, -⟩ := pw_ok_iff.mp h
+  by_cases he : 0 ≤ e
+  · rw [hA.powMod_nonneg b e n hn he] at hp
+    obtain rfl := Option.some.inj hp
+    exact ⟨Int.emod_nonneg _ (by omega), Int.emod_lt_of_pos _ hn⟩
+  · rw [hA.powMod_neg b e n hn (by omega)] at hp
+    cases hi : invMod b n with
+    | none => rw [hi] at hp; cases hp
+    | some bi =>
+      rw [hi] at hp
+      obtain rfl := Option.some.inj hp
+      exact ⟨Int.emod_nonneg _ (by omega), Int.emod_lt_of_pos _ hn⟩
+
+theorem prodPowIdx_nonneg (hA : ArithOK) {N : Int} (hN : 0 < N) (bases msgs : List Int) :
+    ∀ (ix : List Nat) (acc x : Int) (t t' : List Draw), 0 ≤ acc →
+      prodPowIdx N bases msgs ix acc t = .ok (x, t') → 0 ≤ x := by
+  intro ix
+  induction ix with
+  | nil =>
+    intro acc x t t' h0 h
+    unfold prodPowIdx at h
+    obtain ⟨rfl, -⟩ := pure_ok_iff.mp h
+    exact h0
+  | cons i is ih =>
+    intro acc x t t' h0 h
+    unfold prodPowIdx at h
+    obtain ⟨a, t1, -, h1⟩ := bind_ok_inv h
+    obtain ⟨m, t2, -, h2⟩ := bind_ok_inv h1
+    obtain ⟨y, t3, hy, h3⟩ := bind_ok_inv h2
+    exact ih _ _ _ _ (mul_nonneg h0 (pw_range hA hN hy).1) h3
+
+/-- **Honest commitments are reduced** (`commit_with_commitment_pk`, any attributes, any index list): the
+value is `tmod` of a product of `pow_mod` results, hence in `[0, N)`. -/
+theorem commitWithCpk_reduced (hA : ArithOK) {cs : Suite} {msgs : List Int} {cpk : CommitmentPK}
+    {uo : Option (List Nat)} {c : Commitment} {t t' : List Draw} (hN : 0 < cpk.N)
+    (h : commitWithCpk cs msgs cpk uo t = .ok (c, t')) : 0 ≤ c.value ∧ c.value < cpk.N := by
+  unfold commitWithCpk at h
+  obtain ⟨r, t1, -, H1⟩ := bind_ok_inv h
+  obtain ⟨cx, t2, hcx, H2⟩ := bind_ok_inv H1
+  obtain ⟨hr, t3, hhr, H3⟩ := bind_ok_inv H2
+  obtain ⟨rfl, -⟩ := pure_ok_iff.mp H3
+  exact tmod_reduced (mul_nonneg (prodPowIdx_nonneg hA hN _ _ _ _ _ _ _ (by norm_num) hcx)
+    (pw_range hA hN hhr).1) hN
+
+/-- the same for `commit_with_pk` (bases `a_i`, `b`). -/
+theorem commitWithPk_reduced (hA : ArithOK) {cs : Suite} {msgs bases : List Int} {pk : PublicKey}
+    {uo : Option (List Nat)} {c : Commitment} {t t' : List Draw} (hN : 0 < pk.N)
+    (h : commitWithPk cs msgs pk bases uo t = .ok (c, t')) : 0 ≤ c.value ∧ c.value < pk.N := by
+  unfold commitWithPk at h
+  obtain ⟨r, t1, -, H1⟩ := bind_ok_inv h
+  obtain ⟨cx, t2, hcx, H2⟩ := bind_ok_inv H1
+  obtain ⟨hr, t3, hhr, H3⟩ := bind_ok_inv H2
+  obtain ⟨rfl, -⟩ := pure_ok_iff.mp H3
+  exact tmod_reduced (mul_nonneg (prodPowIdx_nonneg hA hN _ _ _ _ _ _ _ (by norm_num) hcx)
+    (pw_range hA hN hhr).1) hN
+
+/-- the same for `commit_v` on a non-negative `v` (every accepted signature has `0 < v`). -/
+theorem commitV_reduced (hA : ArithOK) {cs : Suite} {v : Int} {cpk : CommitmentPK}
+    {c : Commitment} {t t' : List Draw} (hN : 0 < cpk.N) (hv : 0 ≤ v)
+    (h : commitV cs v cpk t = .ok (c, t')) : 0 ≤ c.value ∧ c.value < cpk.N := by
+  unfold commitV at h
+  obtain ⟨w, t1, -, H1⟩ := bind_ok_inv h
+  obtain ⟨g0, t2, -, H2⟩ := bind_ok_inv H1
+  obtain ⟨gw, t3, hgw, H3⟩ := bind_ok_inv H2
+  obtain ⟨rfl, -⟩ := pure_ok_iff.mp H3
+  exact tmod_reduced (mul_nonneg hv (pw_range hA hN hgw).1) hN
 
 end Zk.ClRange
